@@ -205,290 +205,388 @@ def generate():
     unix = read('src/platform/unix/mod.rs')
     router = read('src/router.rs')
     ipc = read('src/ipc.rs')
-    out = ["-- GENERATED by tools/translate.py from the Rust sources under $VERIF_REPO/src — do not edit",
-           "set_option linter.unusedVariables false", "namespace Gen", ""]
     env = {}
-    # EU1 constants
-    for rn, ln in (('MAX_FDS_IN_CMSG', 'maxFdsInCmsg'), ('RESERVED_SIZE', 'reservedSize')):
-        out.append(f"def {ln} : Nat := {const(unix, rn)}")
-        env[rn] = ln
-    m = re.search(r'Events::with_capacity\((\d+)\)', unix)
-    if not m:
-        fail("Events::with_capacity(N) not found")
-    out.append(f"def eventsCap : Nat := {m.group(1)}")
-    m = re.search(r'libc::listen\(fd,\s*(\d+)\)', unix)
-    if not m:
-        fail("listen(fd, N) not found")
-    out.append(f"def listenBacklog : Nat := {m.group(1)}")
-    m = re.search(r'l_onoff:\s*(\d+),\s*l_linger:\s*(\d+)', unix)
-    if not m:
-        fail("linger literal not found")
-    out.append(f"def lingerOn : Nat := {m.group(1)}")
-    out.append(f"def lingerSecs : Nat := {m.group(2)}")
-    out.append("")
-    # EU2 / EU4 leaf functions
-    fnames = {'fragment_size': 'fragmentSize', 'first_fragment_size': 'firstFragmentSize',
-              'CMSG_ALIGN': 'cmsgAlign', 'CMSG_LEN': 'cmsgLen', 'CMSG_SPACE': 'cmsgSpace'}
-    env.update(fnames)
-    for rn in ['fragment_size', 'CMSG_ALIGN', 'CMSG_LEN', 'CMSG_SPACE', 'first_fragment_size']:
-        params, ret, body = find_fn(unix, rn)
-        pname = params.split(':')[0].strip()
-        lenv = dict(env)
-        lenv[pname] = pname
-        e, safe = tr_expr(body, lenv)
-        out.append(f"def {fnames[rn]} ({pname} : Nat) : Nat := {e}")
-        out.append(f"def {fnames[rn]}_safe ({pname} : Nat) : Prop := {conj(safe)}")
-    out.append("")
-    # EU3 downsize (statement-level pattern)
-    params, ret, body = find_fn(unix, 'downsize')
-    m = re.fullmatch(
-        r'if\s+sent_size\s*(>=|>)\s*(\d+)\s*\{\s*\*sendbuf_size\s*/=\s*(\d+);\s*'
-        r'if\s+\*sendbuf_size\s*(>=|>)\s*sent_size\s*\{\s*\*sendbuf_size\s*=\s*sent_size\s*/\s*(\d+);\s*\}\s*'
-        r'Ok\(\(\)\)\s*\}\s*else\s*\{\s*Err\(\(\)\)\s*\}', body, re.S)
-    if not m:
-        fail("downsize has an unexpected shape:\n" + body)
-    c1, thr, d1, c2, d2 = m.groups()
-    ops = {'>': '>', '>=': '≥'}
-    out += ["def downsize (sendbuf_size sent_size : Nat) : Option Nat :=",
-            f"  if sent_size {ops[c1]} {thr} then",
-            f"    let sendbuf_size := sendbuf_size / {d1}",
-            f"    some (if sendbuf_size {ops[c2]} sent_size then sent_size / {d2} else sendbuf_size)",
-            "  else none", ""]
-    # EU5: arithmetic of the send loop and of the reassembly loop
-    sp, sr, send = find_fn(unix, 'send', 0)  # OsIpcSender::send
-    if 'channels: Vec<OsIpcChannel>' not in sp:
-        fail("first fn send is not OsIpcSender::send")
-    senv = dict(env)
-    senv.update({'sendbuf_size': 'sb', 'byte_position': 'pos', 'data.len()': 'len',
-                 'get_max_fragment_size': '(firstFragmentSize sys)', 'end_byte_position': 'endp'})
-    m = re.search(r'if\s+data\.len\(\)\s*(<=|<)\s*Self::get_max_fragment_size\(\)\s*\{', send)
-    if not m:
-        fail("single-packet test not found in send")
-    out.append("/-- `send`: the message is first attempted as a single packet -/")
-    out.append(f"def singleTest (sys len : Nat) : Bool := decide (len {'≤' if m.group(1) == '<=' else '<'} firstFragmentSize sys)")
-    m = re.search(r'downsize\(&mut sendbuf_size,\s*data\.len\(\)\)', send)
-    if not m:
-        fail("downsize call of the single-packet attempt not found")
-    m = re.search(r'if\s+byte_position\s*==\s*0\s*\{\s*end_byte_position\s*=\s*([^;]+);', send)
-    if not m:
-        fail("first-fragment end position not found")
-    e, safe = tr_expr(m.group(1), senv)
-    out.append(f"def endFirst (sb : Nat) : Nat := {e}")
-    m = re.search(r'send_first_fragment\(self\.fd\.0,\s*&fds\[\.\.\],\s*&data\[\.\.end_byte_position\],\s*data\.len\(\)\)', send)
-    if not m:
-        fail("first fragment call has an unexpected shape")
-    m = re.search(r'\}\s*else\s*\{\s*end_byte_position\s*=\s*(cmp::min\(.*?\));\s*send_followup_fragment\(dedicated_tx\.fd\.0,\s*&data\[byte_position\.\.end_byte_position\]\)', send, re.S)
-    if not m:
-        fail("follow-up fragment end position / call not found")
-    e, safe = tr_expr(m.group(1), senv)
-    out.append(f"def endFollow (len pos sb : Nat) : Nat := {e}")
-    m = re.search(r'downsize\(&mut sendbuf_size,\s*(end_byte_position\s*-\s*byte_position)\)', send)
-    if not m:
-        fail("downsize call of the fragment loop not found")
-    e, safe = tr_expr(m.group(1), senv)
-    out.append(f"def sentSize (pos endp : Nat) : Nat := {e}")
-    m = re.search(r'while\s+byte_position\s*<\s*data\.len\(\)\s*\{', send)
-    if not m:
-        fail("fragment loop head not found")
-    m = re.search(r'let\s+mut\s+sendbuf_size\s*=\s*\*SYSTEM_SENDBUF_SIZE;', send)
-    if not m:
-        fail("initial sendbuf_size not found")
-    # descriptor order in send: channels, then regions, then the dedicated receiver
-    i1 = send.find('for channel in channels.iter()')
-    i2 = send.find('for shared_memory_region in shared_memory_regions.iter()')
-    i3 = send.find('fds.push(dedicated_rx.fd.get())')
-    i4 = send.find('while byte_position')
-    order_ok = 0 <= i1 < i2 < i3 < i4
-    out.append(f"def shape_fdOrder : Bool := {'true' if order_ok else 'false'}  -- channels, regions, dedicated socket (last)")
-    # attachment limits in send: `if fds.len() [+ k] > MAX_FDS_IN_CMSG as usize { return Err(..) }`,
-    # the first before any transmission, the second immediately before the dedicated channel is created
-    def limit(m):
-        if not m:
-            return None
-        add = int(m.group(1) or 0)
-        op = {'>': '<', '>=': '≤'}[m.group(2)]
-        return f"decide (maxFdsInCmsg {op} nfds + {add})"
-    pat = r'if\s+fds\.len\(\)\s*(?:\+\s*(\d+)\s*)?(>=|>)\s*MAX_FDS_IN_CMSG\s+as\s+usize\s*\{\s*return\s+Err'
-    i_single = send.find('if data.len()')
-    i_chan = send.find('channel()?')
-    m1 = None
-    m2 = None
-    for m in re.finditer(pat, send):
-        if m.start() < i_single:
-            m1 = m
-        elif m.start() < i_chan:
-            m2 = m
-    out.append("/-- `send` refuses the message before transmitting anything -/")
-    out.append(f"def refuseAll (nfds : Nat) : Bool := {limit(m1) or 'false'}")
-    out.append("/-- `send` refuses to start a fragmented transfer (checked right before the dedicated socket pair is created) -/")
-    out.append(f"def refuseFrag (nfds : Nat) : Bool := {limit(m2) or 'false'}")
-    out.append("")
-    # recv
-    rp, rr, recv = find_fn(unix, 'recv', 3) if False else (None, None, None)
-    ms = list(re.finditer(r'\nfn\s+recv\s*\(', unix))
-    if not ms:
-        fail("free fn recv not found")
-    mo = re.compile(r'\{').search(unix, ms[0].end())
-    # skip the return type: the body's opening brace follows "UnixError> {"
-    mo = re.compile(r'UnixError>\s*\{').search(unix, ms[0].end())
-    if not mo:
-        fail("free fn recv: body not found")
-    recv = strip_comments(unix[mo.end():find_block(unix, mo.end()) - 1])
-    renv = dict(env)
-    renv.update({'write_pos': 'wp', 'total_size': 'total', '*SYSTEM_SENDBUF_SIZE': 'sys', 'bytes_read': 'n',
-                 'get_max_fragment_size': '(firstFragmentSize sys)'})
-    m = re.search(r'main_data_buffer\s*=\s*Vec::with_capacity\((OsIpcSender::get_max_fragment_size\(\))\);\s*'
-                  r'main_data_buffer\.set_len\((OsIpcSender::get_max_fragment_size\(\))\);', recv)
-    if not m:
-        fail("recv: first buffer allocation has an unexpected shape")
-    e, _ = tr_expr(m.group(1), renv)
-    out.append(f"def recvFirstBuf (sys : Nat) : Nat := {e}")
-    m = re.search(r'main_data_buffer\.set_len\((bytes_read\s*-\s*mem::size_of_val\(&total_size\))\);', recv)
-    if not m:
-        fail("recv: header subtraction not found")
-    e, safe = tr_expr(m.group(1), renv)
-    out.append(f"def recvFirstLen (n : Nat) : Nat := {e}")
-    out.append(f"def recvFirstLen_safe (n : Nat) : Prop := {conj(safe)}")
-    m = re.search(r'let\s+channel_length\s*=\s*if\s+cmsg_length\s*==\s*0\s*\{\s*0\s*\}\s*else\s*\{\s*(.*?)\s*\};', recv, re.S)
-    if not m:
-        fail("recv: channel_length expression not found")
-    cenv = dict(renv)
-    cenv['cmsg.cmsg_len()'] = 'cmsg_len'
-    e, safe = tr_expr(m.group(1), cenv)
-    out.append(f"def channelLength (cmsg_len : Nat) : Nat := {e}")
-    out.append(f"def channelLength_safe (cmsg_len : Nat) : Prop := {conj(safe)}")
-    m = re.search(r'if\s+total_size\s*==\s*main_data_buffer\.len\(\)\s*\{\s*return\s+Ok', recv)
-    if not m:
-        fail("recv: fast-path test not found")
-    m = re.search(r'let\s+dedicated_rx\s*=\s*channels\.pop\(\)\.unwrap\(\)\.to_receiver\(\);', recv)
-    out.append(f"def shape_recvPopsLast : Bool := {'true' if m else 'false'}")
-    m = re.search(r'main_data_buffer\.reserve_exact\((total_size\s*-\s*len)\);', recv)
-    if not m:
-        fail("recv: reserve_exact not found")
-    m = re.search(r'while\s+main_data_buffer\.len\(\)\s*<\s*total_size\s*\{', recv)
-    if not m:
-        fail("recv: reassembly loop head not found")
-    m = re.search(r'let\s+end_pos\s*=\s*(cmp::min\(.*?\));', recv, re.S)
-    if not m:
-        fail("recv: end_pos not found")
-    e, _ = tr_expr(m.group(1), renv)
-    out.append(f"def recvEnd (sys wp total : Nat) : Nat := {e}")
-    m = re.search(r'main_data_buffer\[write_pos\.\.\]\.as_mut_ptr\(\)\s*as\s*\*mut\s*c_void,\s*(end_pos\s*-\s*write_pos),', recv)
-    if not m:
-        fail("recv: follow-up read size not found")
-    # buffer length after a follow-up read (C18): `main_data_buffer.set_len(<expr>)` right after the `libc::recv(...)` call
-    mr = re.search(r'libc::recv\(.*?\);\s*(?:if\s+result\s*>\s*0\s*\{)?\s*main_data_buffer\.set_len\(([^;]*)\);', recv, re.S)
-    if not mr:
-        fail("recv: set_len after the follow-up read not found")
-    arg = re.sub(r'\s+', ' ', mr.group(1).strip())
-    forms = {'write_pos + cmp::max(result, 0) as usize': 'wp + r', 'write_pos + result as usize': 'wp + r', 'end_pos': 'ep',
-             'write_pos + (result as usize)': 'wp + r'}
-    if arg not in forms:
-        fail(f"recv: set_len argument after the follow-up read has an unexpected shape: {arg}")
-    out.append("/-- buffer length set after a follow-up `recv` that returned `r` > 0 bytes at `wp` (requested up to `ep`) -/")
-    out.append(f"def recvSetLenAfter (wp r ep : Nat) : Nat := {forms[arg]}")
-    m2 = re.search(r'assert!\(end_pos\s*<=\s*main_data_buffer\.capacity\(\)\);\s*main_data_buffer\.set_len\(end_pos\);', recv)
-    out.append(f"def shape_recvSetLenBeforeRead : Bool := {'true' if m2 else 'false'}  -- set_len(end_pos) guarded by the capacity assert")
-    # truncated message handling: legacy returns ChannelClosed; repaired code receives the next message
-    m = re.search(r'cmp::Ordering::Equal\s*=>\s*return\s+Err\(UnixError::ChannelClosed\)', recv)
-    out.append(f"def recvTruncatedIsClosed : Bool := {'true' if m else 'false'}")
-    out.append("")
-    # receive modes (C10): the flag is set before and cleared after the first recvmsg
-    _, _, crecv = find_fn(unix, 'recv', 0) if False else (None, None, None)
-    mc = re.search(r'unsafe fn recv\(&mut self, fd: c_int, blocking_mode: BlockingMode\)[^{]*\{', unix)
-    if not mc:
-        fail("UnixCmsg::recv not found")
-    crecv = strip_comments(unix[mc.end():find_block(unix, mc.end()) - 1])
-    iset = crecv.find('libc::fcntl(fd, libc::F_SETFL, libc::O_NONBLOCK)')
-    ircv = crecv.find('recvmsg(fd, &mut self.msghdr, RECVMSG_FLAGS)')
-    iclr = crecv.find('libc::fcntl(fd, libc::F_SETFL, 0)')
-    out.append(f"def shape_nonblockSetBefore : Bool := {'true' if 0 <= iset < ircv else 'false'}")
-    out.append(f"def shape_nonblockClearedAfter : Bool := {'true' if 0 <= ircv < iclr else 'false'}")
-    m = re.search(r'cmp::Ordering::Equal\s*=>\s*return\s+Err\(UnixError::Errno\(EAGAIN\)\)', crecv)
-    out.append(f"def shape_pollTimeoutIsEagain : Bool := {'true' if m else 'false'}")
-    # the wait handed to poll(): `duration.as_<unit>().try_into().unwrap_or(-1)`
-    m = re.search(r'duration\.as_(secs|millis|micros|nanos)\(\)\.try_into\(\)\.unwrap_or\(-1\)', crecv)
-    if not m:
-        fail("UnixCmsg::recv: conversion of the timeout to poll()'s argument has an unexpected shape")
-    mul, div = {'secs': (1, 1000000), 'millis': (1, 1000), 'micros': (1, 1), 'nanos': (1000, 1)}[m.group(1)]
-    out.append(f"def pollUnitMul : Nat := {mul}")
-    out.append(f"def pollUnitDiv : Nat := {div}")
-    m = re.search(r'let\s+events\s*=\s*libc::POLLIN\s*\|\s*libc::POLLPRI\s*\|\s*POLLRDHUP\s*;', crecv)
-    out.append(f"def shape_pollEvents : Bool := {'true' if m else 'false'}  -- POLLIN | POLLPRI | POLLRDHUP")
-    out.append("")
-    # shared memory (C05/C18): the size given to the memory object and the length mapped by the creator
-    _, _, bsnew = find_fn(unix, 'new', 0) if False else (None, None, None)
-    mb = re.search(r'impl BackingStore \{', unix)
-    if not mb:
-        fail("impl BackingStore not found")
-    bs = strip_comments(unix[mb.end():find_block(unix, mb.end()) - 1])
-    m = re.search(r'let\s+fd\s*=\s*create_shmem\(name,\s*([^;]+?)\);', bs)
-    if not m:
-        fail("BackingStore::new: create_shmem call not found")
-    e, _ = tr_expr(m.group(1), {'length': 'length'})
-    sizes = re.findall(r'libc::ftruncate\(fd,\s*(\w+)\s+as\s+off_t\)', unix)
-    if not sizes or any(x != 'length' for x in sizes):
-        fail("create_shmem: ftruncate(fd, length as off_t) not found")
-    out.append(f"def shmObjectSize (length : Nat) : Nat := {e}")
-    m = re.search(r'if\s+length\s*==\s*0\s*\{[^}]*return\s*\(ptr::null_mut\(\),\s*length\);', bs, re.S)
-    out.append(f"def shape_mapZeroIsNull : Bool := {'true' if m else 'false'}")
-    md = re.search(r'fn deref\(&self\) -> &\[u8\] \{', unix)
-    dz = False
-    if md:
-        body = strip_comments(unix[md.end():find_block(unix, md.end()) - 1])
-        dz = bool(re.search(r'if\s+self\.ptr\.is_null\(\)\s*\{\s*return\s*&\[\];\s*\}', body))
-    out.append(f"def shape_derefNullIsEmpty : Bool := {'true' if dz else 'false'}")
-    out.append("")
-    # one-shot server (C08)
-    mo = re.search(r'impl OsIpcOneShotServer \{', unix)
-    if not mo:
-        fail("impl OsIpcOneShotServer not found")
-    osrv = strip_comments(unix[mo.end():find_block(unix, mo.end()) - 1])
-    td = bool(re.search(r'Builder::new\(\)\.tempdir\(\)\?', osrv))
-    out.append(f"def shape_tempdirDefault : Bool := {'true' if td else 'false'}  -- no custom prefix / rand_bytes")
-    i_own = osrv.find('let server = OsIpcOneShotServer {')
-    i_bind = osrv.find('libc::bind(')
-    i_listen = osrv.find('libc::listen(')
-    i_sock = osrv.find('libc::socket(')
-    i_addr = osrv.find('new_sockaddr_un(')
-    out.append(f"def shape_serverOwnsBeforeBind : Bool := {'true' if 0 <= i_addr < i_sock < i_own < i_bind < i_listen else 'false'}")
-    _, _, nsu = find_fn(unix, 'new_sockaddr_un')
-    pc = bool(re.search(r'if\s+libc::strlen\(path\)\s*>=\s*sockaddr\.sun_path\.len\(\)\s*\{\s*return\s+Err', nsu))
-    out.append(f"def shape_pathChecked : Bool := {'true' if pc else 'false'}")
-    i_acc = osrv.find('libc::accept4(self.fd, sockaddr, sockaddr_len, SOCK_FLAGS)')
-    i_lin = osrv.find('make_socket_lingering(client_fd)?')
-    i_rcv = osrv.find('receiver.recv()?')
-    out.append(f"def shape_acceptLingerThenRecv : Bool := {'true' if 0 <= i_acc < i_lin < i_rcv else 'false'}")
-    ac = bool(re.search(r'pub fn accept\(\s*self,', unix))
-    out.append(f"def shape_acceptConsumesServer : Bool := {'true' if ac else 'false'}")
-    out.append("")
-    # Router::run (C07/C17): which statement ends the loop on Shutdown, and how a closed wake-up is handled
-    _, _, run = find_fn(router, 'run')
-    out.append(f"def routerRunArms : Nat := {len(re.findall(r'IpcSelectionResult::', run))}")
-    out.append("end Gen")
-    return "\n".join(out) + "\n"
+    files = {}
+    errors = {}
+    HEADER = ["-- GENERATED by tools/translate.py from the Rust sources under $VERIF_REPO/src — do not edit",
+              "set_option linter.unusedVariables false", "namespace Gen", ""]
 
+    def run_unit(name, f):
+        out = list(HEADER)
+        try:
+            f(out)
+            out.append("end Gen")
+            files[name] = "\n".join(out) + "\n"
+        except TranslateError as e:
+            errors[name] = str(e)
+            files[name] = ("/- translator: unit " + name + " could not be translated from the current source:\n" + str(e).replace("-/", "- /") + "\n-/\n"
+                           "-- deliberately failing, so that only the properties that depend on this unit lose their proof obligations\n"
+                           "example : False := by trivial\n")
+
+    def unit_core(out):
+        # EU1 constants
+        for rn, ln in (('MAX_FDS_IN_CMSG', 'maxFdsInCmsg'), ('RESERVED_SIZE', 'reservedSize')):
+            out.append(f"def {ln} : Nat := {const(unix, rn)}")
+            env[rn] = ln
+        m = re.search(r'Events::with_capacity\((\d+)\)', unix)
+        if not m:
+            fail("Events::with_capacity(N) not found")
+        out.append(f"def eventsCap : Nat := {m.group(1)}")
+        out.append("")
+        # EU2 / EU4 leaf functions
+        fnames = {'fragment_size': 'fragmentSize', 'first_fragment_size': 'firstFragmentSize',
+                  'CMSG_ALIGN': 'cmsgAlign', 'CMSG_LEN': 'cmsgLen', 'CMSG_SPACE': 'cmsgSpace'}
+        env.update(fnames)
+        for rn in ['fragment_size', 'CMSG_ALIGN', 'CMSG_LEN', 'CMSG_SPACE', 'first_fragment_size']:
+            params, ret, body = find_fn(unix, rn)
+            pname = params.split(':')[0].strip()
+            lenv = dict(env)
+            lenv[pname] = pname
+            e, safe = tr_expr(body, lenv)
+            out.append(f"def {fnames[rn]} ({pname} : Nat) : Nat := {e}")
+            out.append(f"def {fnames[rn]}_safe ({pname} : Nat) : Prop := {conj(safe)}")
+        out.append("")
+        # EU3 downsize (statement-level pattern)
+        params, ret, body = find_fn(unix, 'downsize')
+        m = re.fullmatch(
+            r'if\s+sent_size\s*(>=|>)\s*(\d+)\s*\{\s*\*sendbuf_size\s*/=\s*(\d+);\s*'
+            r'if\s+\*sendbuf_size\s*(>=|>)\s*sent_size\s*\{\s*\*sendbuf_size\s*=\s*sent_size\s*/\s*(\d+);\s*\}\s*'
+            r'Ok\(\(\)\)\s*\}\s*else\s*\{\s*Err\(\(\)\)\s*\}', body, re.S)
+        if not m:
+            fail("downsize has an unexpected shape:\n" + body)
+        c1, thr, d1, c2, d2 = m.groups()
+        ops = {'>': '>', '>=': '≥'}
+        out += ["def downsize (sendbuf_size sent_size : Nat) : Option Nat :=",
+                f"  if sent_size {ops[c1]} {thr} then",
+                f"    let sendbuf_size := sendbuf_size / {d1}",
+                f"    some (if sendbuf_size {ops[c2]} sent_size then sent_size / {d2} else sendbuf_size)",
+                "  else none", ""]
+        # EU5: arithmetic of the send loop and of the reassembly loop
+        sp, sr, send = find_fn(unix, 'send', 0)  # OsIpcSender::send
+        if 'channels: Vec<OsIpcChannel>' not in sp:
+            fail("first fn send is not OsIpcSender::send")
+        senv = dict(env)
+        senv.update({'sendbuf_size': 'sb', 'byte_position': 'pos', 'data.len()': 'len',
+                     'get_max_fragment_size': '(firstFragmentSize sys)', 'end_byte_position': 'endp'})
+        m = re.search(r'if\s+data\.len\(\)\s*(<=|<)\s*Self::get_max_fragment_size\(\)\s*\{', send)
+        if not m:
+            fail("single-packet test not found in send")
+        out.append("/-- `send`: the message is first attempted as a single packet -/")
+        out.append(f"def singleTest (sys len : Nat) : Bool := decide (len {'≤' if m.group(1) == '<=' else '<'} firstFragmentSize sys)")
+        m = re.search(r'downsize\(&mut sendbuf_size,\s*data\.len\(\)\)', send)
+        if not m:
+            fail("downsize call of the single-packet attempt not found")
+        m = re.search(r'if\s+byte_position\s*==\s*0\s*\{\s*end_byte_position\s*=\s*([^;]+);', send)
+        if not m:
+            fail("first-fragment end position not found")
+        e, safe = tr_expr(m.group(1), senv)
+        out.append(f"def endFirst (sb : Nat) : Nat := {e}")
+        m = re.search(r'send_first_fragment\(self\.fd\.0,\s*&fds\[\.\.\],\s*&data\[\.\.end_byte_position\],\s*data\.len\(\)\)', send)
+        if not m:
+            fail("first fragment call has an unexpected shape")
+        m = re.search(r'\}\s*else\s*\{\s*end_byte_position\s*=\s*(cmp::min\(.*?\));\s*send_followup_fragment\(dedicated_tx\.fd\.0,\s*&data\[byte_position\.\.end_byte_position\]\)', send, re.S)
+        if not m:
+            fail("follow-up fragment end position / call not found")
+        e, safe = tr_expr(m.group(1), senv)
+        out.append(f"def endFollow (len pos sb : Nat) : Nat := {e}")
+        m = re.search(r'downsize\(&mut sendbuf_size,\s*(end_byte_position\s*-\s*byte_position)\)', send)
+        if not m:
+            fail("downsize call of the fragment loop not found")
+        e, safe = tr_expr(m.group(1), senv)
+        out.append(f"def sentSize (pos endp : Nat) : Nat := {e}")
+        m = re.search(r'while\s+byte_position\s*<\s*data\.len\(\)\s*\{', send)
+        if not m:
+            fail("fragment loop head not found")
+        m = re.search(r'let\s+mut\s+sendbuf_size\s*=\s*\*SYSTEM_SENDBUF_SIZE;', send)
+        if not m:
+            fail("initial sendbuf_size not found")
+        # descriptor order in send: channels, then regions, then the dedicated receiver
+        i1 = send.find('for channel in channels.iter()')
+        i2 = send.find('for shared_memory_region in shared_memory_regions.iter()')
+        i3 = send.find('fds.push(dedicated_rx.fd.get())')
+        i4 = send.find('while byte_position')
+        order_ok = 0 <= i1 < i2 < i3 < i4
+        out.append(f"def shape_fdOrder : Bool := {'true' if order_ok else 'false'}  -- channels, regions, dedicated socket (last)")
+        # attachment limits in send: `if fds.len() [+ k] > MAX_FDS_IN_CMSG as usize { return Err(..) }`,
+        # the first before any transmission, the second immediately before the dedicated channel is created
+        def limit(m):
+            if not m:
+                return None
+            add = int(m.group(1) or 0)
+            op = {'>': '<', '>=': '≤'}[m.group(2)]
+            return f"decide (maxFdsInCmsg {op} nfds + {add})"
+        pat = r'if\s+fds\.len\(\)\s*(?:\+\s*(\d+)\s*)?(>=|>)\s*MAX_FDS_IN_CMSG\s+as\s+usize\s*\{\s*return\s+Err'
+        i_single = send.find('if data.len()')
+        i_chan = send.find('channel()?')
+        m1 = None
+        m2 = None
+        for m in re.finditer(pat, send):
+            if m.start() < i_single:
+                m1 = m
+            elif m.start() < i_chan:
+                m2 = m
+        out.append("/-- `send` refuses the message before transmitting anything -/")
+        out.append(f"def refuseAll (nfds : Nat) : Bool := {limit(m1) or 'false'}")
+        out.append("/-- `send` refuses to start a fragmented transfer (checked right before the dedicated socket pair is created) -/")
+        out.append(f"def refuseFrag (nfds : Nat) : Bool := {limit(m2) or 'false'}")
+        out.append("")
+        # recv
+        rp, rr, recv = find_fn(unix, 'recv', 3) if False else (None, None, None)
+        ms = list(re.finditer(r'\nfn\s+recv\s*\(', unix))
+        if not ms:
+            fail("free fn recv not found")
+        mo = re.compile(r'\{').search(unix, ms[0].end())
+        # skip the return type: the body's opening brace follows "UnixError> {"
+        mo = re.compile(r'UnixError>\s*\{').search(unix, ms[0].end())
+        if not mo:
+            fail("free fn recv: body not found")
+        recv = strip_comments(unix[mo.end():find_block(unix, mo.end()) - 1])
+        renv = dict(env)
+        renv.update({'write_pos': 'wp', 'total_size': 'total', '*SYSTEM_SENDBUF_SIZE': 'sys', 'bytes_read': 'n',
+                     'get_max_fragment_size': '(firstFragmentSize sys)'})
+        m = re.search(r'main_data_buffer\s*=\s*Vec::with_capacity\((OsIpcSender::get_max_fragment_size\(\))\);\s*'
+                      r'main_data_buffer\.set_len\((OsIpcSender::get_max_fragment_size\(\))\);', recv)
+        if not m:
+            fail("recv: first buffer allocation has an unexpected shape")
+        e, _ = tr_expr(m.group(1), renv)
+        out.append(f"def recvFirstBuf (sys : Nat) : Nat := {e}")
+        m = re.search(r'main_data_buffer\.set_len\((bytes_read\s*-\s*mem::size_of_val\(&total_size\))\);', recv)
+        if not m:
+            fail("recv: header subtraction not found")
+        e, safe = tr_expr(m.group(1), renv)
+        out.append(f"def recvFirstLen (n : Nat) : Nat := {e}")
+        out.append(f"def recvFirstLen_safe (n : Nat) : Prop := {conj(safe)}")
+        m = re.search(r'let\s+channel_length\s*=\s*if\s+cmsg_length\s*==\s*0\s*\{\s*0\s*\}\s*else\s*\{\s*(.*?)\s*\};', recv, re.S)
+        if not m:
+            fail("recv: channel_length expression not found")
+        cenv = dict(renv)
+        cenv['cmsg.cmsg_len()'] = 'cmsg_len'
+        e, safe = tr_expr(m.group(1), cenv)
+        out.append(f"def channelLength (cmsg_len : Nat) : Nat := {e}")
+        out.append(f"def channelLength_safe (cmsg_len : Nat) : Prop := {conj(safe)}")
+        m = re.search(r'if\s+total_size\s*==\s*main_data_buffer\.len\(\)\s*\{\s*return\s+Ok', recv)
+        if not m:
+            fail("recv: fast-path test not found")
+        m = re.search(r'let\s+dedicated_rx\s*=\s*channels\.pop\(\)\.unwrap\(\)\.to_receiver\(\);', recv)
+        out.append(f"def shape_recvPopsLast : Bool := {'true' if m else 'false'}")
+        m = re.search(r'main_data_buffer\.reserve_exact\((total_size\s*-\s*len)\);', recv)
+        if not m:
+            fail("recv: reserve_exact not found")
+        m = re.search(r'while\s+main_data_buffer\.len\(\)\s*<\s*total_size\s*\{', recv)
+        if not m:
+            fail("recv: reassembly loop head not found")
+        m = re.search(r'let\s+end_pos\s*=\s*(cmp::min\(.*?\));', recv, re.S)
+        if not m:
+            fail("recv: end_pos not found")
+        e, _ = tr_expr(m.group(1), renv)
+        out.append(f"def recvEnd (sys wp total : Nat) : Nat := {e}")
+        m = re.search(r'main_data_buffer\[write_pos\.\.\]\.as_mut_ptr\(\)\s*as\s*\*mut\s*c_void,\s*(end_pos\s*-\s*write_pos),', recv)
+        if not m:
+            fail("recv: follow-up read size not found")
+        # buffer length after a follow-up read (C18): `main_data_buffer.set_len(<expr>)` right after the `libc::recv(...)` call
+        mr = re.search(r'libc::recv\(.*?\);\s*(?:if\s+result\s*>\s*0\s*\{)?\s*main_data_buffer\.set_len\(([^;]*)\);', recv, re.S)
+        if not mr:
+            fail("recv: set_len after the follow-up read not found")
+        arg = re.sub(r'\s+', ' ', mr.group(1).strip())
+        forms = {'write_pos + cmp::max(result, 0) as usize': 'wp + r', 'write_pos + result as usize': 'wp + r', 'end_pos': 'ep',
+                 'write_pos + (result as usize)': 'wp + r'}
+        if arg not in forms:
+            fail(f"recv: set_len argument after the follow-up read has an unexpected shape: {arg}")
+        out.append("/-- buffer length set after a follow-up `recv` that returned `r` > 0 bytes at `wp` (requested up to `ep`) -/")
+        out.append(f"def recvSetLenAfter (wp r ep : Nat) : Nat := {forms[arg]}")
+        m2 = re.search(r'assert!\(end_pos\s*<=\s*main_data_buffer\.capacity\(\)\);\s*main_data_buffer\.set_len\(end_pos\);', recv)
+        out.append(f"def shape_recvSetLenBeforeRead : Bool := {'true' if m2 else 'false'}  -- set_len(end_pos) guarded by the capacity assert")
+        # truncated message handling: legacy returns ChannelClosed; repaired code receives the next message
+        m = re.search(r'cmp::Ordering::Equal\s*=>\s*return\s+Err\(UnixError::ChannelClosed\)', recv)
+        out.append(f"def recvTruncatedIsClosed : Bool := {'true' if m else 'false'}")
+        out.append("")
+    run_unit('Gen', unit_core)
+    def unit_timed(out):
+        # receive modes (C10): the flag is set before and cleared after the first recvmsg
+        _, _, crecv = find_fn(unix, 'recv', 0) if False else (None, None, None)
+        mc = re.search(r'unsafe fn recv\(&mut self, fd: c_int, blocking_mode: BlockingMode\)[^{]*\{', unix)
+        if not mc:
+            fail("UnixCmsg::recv not found")
+        crecv = strip_comments(unix[mc.end():find_block(unix, mc.end()) - 1])
+        iset = crecv.find('libc::fcntl(fd, libc::F_SETFL, libc::O_NONBLOCK)')
+        ircv = crecv.find('recvmsg(fd, &mut self.msghdr, RECVMSG_FLAGS)')
+        iclr = crecv.find('libc::fcntl(fd, libc::F_SETFL, 0)')
+        out.append(f"def shape_nonblockSetBefore : Bool := {'true' if 0 <= iset < ircv else 'false'}")
+        out.append(f"def shape_nonblockClearedAfter : Bool := {'true' if 0 <= ircv < iclr else 'false'}")
+        m = re.search(r'cmp::Ordering::Equal\s*=>\s*return\s+Err\(UnixError::Errno\(EAGAIN\)\)', crecv)
+        out.append(f"def shape_pollTimeoutIsEagain : Bool := {'true' if m else 'false'}")
+        # the wait handed to poll(): `duration.as_<unit>().try_into().unwrap_or(-1)`
+        m = re.search(r'duration\.as_(secs|millis|micros|nanos)\(\)\.try_into\(\)\.unwrap_or\(-1\)', crecv)
+        if not m:
+            fail("UnixCmsg::recv: conversion of the timeout to poll()'s argument has an unexpected shape")
+        mul, div = {'secs': (1, 1000000), 'millis': (1, 1000), 'micros': (1, 1), 'nanos': (1000, 1)}[m.group(1)]
+        out.append(f"def pollUnitMul : Nat := {mul}")
+        out.append(f"def pollUnitDiv : Nat := {div}")
+        m = re.search(r'let\s+events\s*=\s*libc::POLLIN\s*\|\s*libc::POLLPRI\s*\|\s*POLLRDHUP\s*;', crecv)
+        out.append(f"def shape_pollEvents : Bool := {'true' if m else 'false'}  -- POLLIN | POLLPRI | POLLRDHUP")
+        out.append("")
+    run_unit('GenTimed', unit_timed)
+    def unit_shm(out):
+        # shared memory (C05/C18): the size given to the memory object and the length mapped by the creator
+        _, _, bsnew = find_fn(unix, 'new', 0) if False else (None, None, None)
+        mb = re.search(r'impl BackingStore \{', unix)
+        if not mb:
+            fail("impl BackingStore not found")
+        bs = strip_comments(unix[mb.end():find_block(unix, mb.end()) - 1])
+        m = re.search(r'let\s+fd\s*=\s*create_shmem\(name,\s*([^;]+?)\);', bs)
+        if not m:
+            fail("BackingStore::new: create_shmem call not found")
+        e, _ = tr_expr(m.group(1), {'length': 'length'})
+        sizes = re.findall(r'libc::ftruncate\(fd,\s*(\w+)\s+as\s+off_t\)', unix)
+        if not sizes or any(x != 'length' for x in sizes):
+            fail("create_shmem: ftruncate(fd, length as off_t) not found")
+        out.append(f"def shmObjectSize (length : Nat) : Nat := {e}")
+        m = re.search(r'if\s+length\s*==\s*0\s*\{[^}]*return\s*\(ptr::null_mut\(\),\s*length\);', bs, re.S)
+        out.append(f"def shape_mapZeroIsNull : Bool := {'true' if m else 'false'}")
+        md = re.search(r'fn deref\(&self\) -> &\[u8\] \{', unix)
+        dz = False
+        if md:
+            body = strip_comments(unix[md.end():find_block(unix, md.end()) - 1])
+            dz = bool(re.search(r'if\s+self\.ptr\.is_null\(\)\s*\{\s*return\s*&\[\];\s*\}', body))
+        out.append(f"def shape_derefNullIsEmpty : Bool := {'true' if dz else 'false'}")
+        out.append("")
+    run_unit('GenShm', unit_shm)
+    def unit_oneshot(out):
+        m = re.search(r'libc::listen\(fd,\s*(\d+)\)', unix)
+        if not m:
+            fail("listen(fd, N) not found")
+        out.append(f"def listenBacklog : Nat := {m.group(1)}")
+        m = re.search(r'l_onoff:\s*(\d+),\s*l_linger:\s*(\d+)', unix)
+        if not m:
+            fail("linger literal not found")
+        out.append(f"def lingerOn : Nat := {m.group(1)}")
+        out.append(f"def lingerSecs : Nat := {m.group(2)}")
+        # one-shot server (C08)
+        mo = re.search(r'impl OsIpcOneShotServer \{', unix)
+        if not mo:
+            fail("impl OsIpcOneShotServer not found")
+        osrv = strip_comments(unix[mo.end():find_block(unix, mo.end()) - 1])
+        td = bool(re.search(r'Builder::new\(\)\.tempdir\(\)\?', osrv))
+        out.append(f"def shape_tempdirDefault : Bool := {'true' if td else 'false'}  -- no custom prefix / rand_bytes")
+        i_own = osrv.find('let server = OsIpcOneShotServer {')
+        i_bind = osrv.find('libc::bind(')
+        i_listen = osrv.find('libc::listen(')
+        i_sock = osrv.find('libc::socket(')
+        i_addr = osrv.find('new_sockaddr_un(')
+        out.append(f"def shape_serverOwnsBeforeBind : Bool := {'true' if 0 <= i_addr < i_sock < i_own < i_bind < i_listen else 'false'}")
+        _, _, nsu = find_fn(unix, 'new_sockaddr_un')
+        pc = bool(re.search(r'if\s+libc::strlen\(path\)\s*>=\s*sockaddr\.sun_path\.len\(\)\s*\{\s*return\s+Err', nsu))
+        out.append(f"def shape_pathChecked : Bool := {'true' if pc else 'false'}")
+        i_acc = osrv.find('libc::accept4(self.fd, sockaddr, sockaddr_len, SOCK_FLAGS)')
+        i_lin = osrv.find('make_socket_lingering(client_fd)?')
+        i_rcv = osrv.find('receiver.recv()?')
+        out.append(f"def shape_acceptLingerThenRecv : Bool := {'true' if 0 <= i_acc < i_lin < i_rcv else 'false'}")
+        ac = bool(re.search(r'pub fn accept\(\s*self,', unix))
+        out.append(f"def shape_acceptConsumesServer : Bool := {'true' if ac else 'false'}")
+
+    run_unit('GenOneShot', unit_oneshot)
+    def unit_ipc(out):
+        # EU-ipc (C14 / C16): the order in which IpcSender::send and OpaqueIpcMessage::to touch the thread-local tables
+        def script(body, pats, what, forbidden):
+            flat = re.sub(r'\s+', '', body)
+            hits = []
+            spans = []
+            for name, rx in pats:
+                for m in re.finditer(rx, flat):
+                    nm = name(m) if callable(name) else name
+                    hits.append((m.start(), nm))
+                    spans.append((m.start(), m.end()))
+            hits.sort()
+            spans.sort()
+            residue, pos = [], 0
+            for a, b in spans:
+                if a < pos:
+                    fail(f"{what}: overlapping table operations")
+                residue.append(flat[pos:a])
+                pos = b
+            residue.append(flat[pos:])
+            residue = '§'.join(residue)
+            for tok in forbidden:
+                if re.search(tok, residue):
+                    fail(f"{what}: unexpected construct {tok!r} besides the recognised table operations:\n{residue}")
+            return [h[1] for h in hits]
+
+        m = re.search(r'pub fn send\(&self,\s*data:\s*T\)\s*->\s*Result<\(\),\s*bincode::Error>\s*\{', ipc)
+        if not m:
+            fail("IpcSender::send not found")
+        send_body = strip_comments(ipc[m.end():find_block(ipc, m.end()) - 1])
+        send_pats = [
+            ('saveChans', r'mem::take\(&mut\*os_ipc_channels_for_serialization\.borrow_mut\(\),?\)'),
+            ('saveRegions', r'mem::take\(&mut\*os_ipc_shared_memory_regions_for_serialization\.borrow_mut\(\),?\)'),
+            (lambda mm: 'serializeProp' if mm.group(1) else 'serialize', r'bincode::serialize_into\(&mutbytes,&data\)(\?)?'),
+            ('restoreChans', r'mem::replace\(&mut\*os_ipc_channels_for_serialization\.borrow_mut\(\),old_os_ipc_channels,?\)'),
+            ('restoreRegions', r'mem::replace\(&mut\*os_ipc_shared_memory_regions_for_serialization\.borrow_mut\(\),old_os_ipc_shared_memory_regions,?\)'),
+            ('propagate', r'result\?;'),
+            ('osSend', r'self\.os_sender\.send\(&bytes\[\.\.\],os_ipc_channels,os_ipc_shared_memory_regions,?\)\?'),
+        ]
+        forbidden = [r'mem::', r'borrow', r'\?', r'\breturn\b', r'\bif\b', r'\bmatch\b', r'\bwhile\b', r'\bfor\b', r'\bloop\b', r'\.send\(', r'serialize', r'unsafe',
+                     r'\bdrop\(', r'forget']
+        steps = script(send_body, send_pats, 'IpcSender::send', forbidden)
+        out.append("")
+        out.append("/-- table operations of `IpcSender::send`, in source order -/")
+        out.append("inductive SendStep | saveChans | saveRegions | serialize | serializeProp | restoreChans | restoreRegions | propagate | osSend")
+        out.append("deriving Repr, DecidableEq")
+        out.append("def sendScript : List SendStep := [" + ", ".join('.' + x for x in steps) + "]")
+        m = re.search(r'pub fn to<T>\(mut self\)\s*->\s*Result<T,\s*bincode::Error>\s*where[^{]*\{', ipc)
+        if not m:
+            fail("OpaqueIpcMessage::to not found")
+        to_body = strip_comments(ipc[m.end():find_block(ipc, m.end()) - 1])
+        to_pats = [
+            ('swapChans', r'mem::swap\(&mut\*os_ipc_channels_for_deserialization\.borrow_mut\(\),&mutself\.os_ipc_channels,?\)'),
+            ('swapRegions', r'mem::swap\(&mut\*os_ipc_shared_memory_regions_for_deserialization\.borrow_mut\(\),&mutself\.os_ipc_shared_memory_regions,?\)'),
+            (lambda mm: 'deserializeProp' if mm.group(1) else 'deserialize', r'bincode::deserialize\(&self\.data\[\.\.\]\)(\?)?'),
+        ]
+        steps = script(to_body, to_pats, 'OpaqueIpcMessage::to', forbidden + [r'deserialize'])
+        if not re.search(r';result\},?\)\}\)$', re.sub(r'\s+', '', to_body)):
+            fail("OpaqueIpcMessage::to does not end by returning `result`")
+        out.append("/-- table operations of `OpaqueIpcMessage::to`, in source order (the decode result is returned at the end) -/")
+        out.append("inductive ToStep | swapChans | swapRegions | deserialize | deserializeProp")
+        out.append("deriving Repr, DecidableEq")
+        out.append("def toScript : List ToStep := [" + ", ".join('.' + x for x in steps) + "]")
+        # the (de)serialisers of endpoints and regions: the index written is the table length before the push; an index is
+        # honoured only if it is in range and not used before (`get_mut(index).and_then(Option::take)`)
+        flat = re.sub(r'\s+', '', strip_comments(ipc))
+        n_push = len(re.findall(r'letindex=(\w+)\.len\(\);\1\.push\([^;]*\);index\}', flat))
+        n_push_any = len(re.findall(r'for_serialization\.push\(', flat))
+        out.append(f"def shape_serIndexBeforePush : Bool := {'true' if n_push == 3 and n_push_any == 3 else 'false'}  -- sender, receiver, region")
+        n_take = len(re.findall(r'\.borrow_mut\(\)\.get_mut\(index\)\.and_then\(Option::take\)', flat))
+        n_deser_access = len(re.findall(r'for_deserialization\.borrow', flat)) + len(re.findall(r'for_deserialization\|\{os_ipc\w*for_deserialization\.borrow', flat))
+        out.append(f"def shape_takeChecked : Bool := {'true' if n_take == 2 else 'false'}  -- channels (shared by senders and receivers), regions")
+        out.append(f"def shape_shmEmptySentinel : Bool := {'true' if 'ifindex==usize::MAX{Ok(IpcSharedMemory::empty())}' in flat and '}else{usize::MAX}.serialize(serializer)' in flat else 'false'}")
+        out.append("")
+    run_unit('GenIpc', unit_ipc)
+    def unit_router(out):
+        # Router::run (C07/C17): which statement ends the loop on Shutdown, and how a closed wake-up is handled
+        _, _, run = find_fn(router, 'run')
+        out.append(f"def routerRunArms : Nat := {len(re.findall(r'IpcSelectionResult::', run))}")
+    run_unit('GenRouter', unit_router)
+    return files, errors
 
 def main():
-    try:
-        text = generate()
-    except TranslateError as e:
-        print(f"translator: {e}", file=sys.stderr)
-        return 2
-    out = os.path.normpath(OUT)
-    old = None
-    try:
-        old = open(out).read()
-    except OSError:
-        pass
-    if old != text:
-        os.makedirs(os.path.dirname(out), exist_ok=True)
-        tmp = out + '.tmp'
-        open(tmp, 'w').write(text)
-        os.replace(tmp, out)
-        print("translator: Gen.lean updated")
-    else:
-        print("translator: Gen.lean unchanged")
+    files, errors = generate()
+    outdir = os.path.normpath(os.path.dirname(OUT))
+    os.makedirs(outdir, exist_ok=True)
+    for name, text in files.items():
+        out = os.path.join(outdir, name + '.lean')
+        old = None
+        try:
+            old = open(out).read()
+        except OSError:
+            pass
+        if old != text:
+            tmp = out + '.tmp'
+            open(tmp, 'w').write(text)
+            os.replace(tmp, out)
+            print(f"translator: {name}.lean updated")
+        else:
+            print(f"translator: {name}.lean unchanged")
+    for name, msg in errors.items():
+        print(f"translator: unit {name} NOT translated: {msg.splitlines()[0]}", file=sys.stderr)
     return 0
 
 
